@@ -10,10 +10,23 @@
 //        storm  open/close storms of sockets, contexts, dialers, listeners and
 //               the pipes they create: every id is collected; request and
 //               survey ids are read off the wire by raw peers
+//        wrap   the library's own static id maps (sockets, contexts, dialers,
+//               listeners, pipes) at the end of their range: the cursor of the
+//               real map is moved to just below its maximum (the map is found
+//               through the executable's symbol table: there is no accessor),
+//               then objects are opened and closed across the wrap while ten
+//               long-lived ones hold the lowest ids
+#include "core/nng_impl.h"
+
 #include "vfh.h"
 
+#include <elf.h>
+#include <fcntl.h>
+#include <link.h>
 #include <pthread.h>
 #include <stdatomic.h>
+#include <sys/mman.h>
+#include <sys/stat.h>
 #include <unistd.h>
 
 // ==================================================================
@@ -460,6 +473,14 @@ run_map(void)
 		}
 		if (!mdead(&C)) {
 			vf_class("idmap/w%s/%s/stride%llu/%s%s%s", w == 0 ? "full" : w <= 16 ? "tiny" : "mid", flags ? "random" : "seq", (unsigned long long) (explicit_keys ? stride : 0), C.wraps ? "wrapped" : "nowrap", C.full_refusals ? "/filled" : "", rvisits ? "/rvisit" : "");
+			// the share of histories in which a refusal was excused (more keys
+			// stored than the range is wide, some of them outside it) and of those
+			// in which every refusal was judged, per shape
+			if (C.full_refusals + C.spurious_refusals > 0) {
+				vf_class("idmap/refusals/w%s/stride%llu/%s", w == 0 ? "full" : w <= 16 ? "tiny" : "mid", (unsigned long long) (explicit_keys ? stride : 0),
+				    C.spurious_refusals == 0 ? "all-judged" : C.full_refusals == 0 ? "all-excused" : "judged-and-excused");
+				vf_stat(C.spurious_refusals == 0 ? "idmap_cases_refusals_all_judged" : "idmap_cases_with_excused_refusals", 1);
+			}
 		}
 		vf_stat("idmap_allocs", C.allocs);
 		vf_stat("idmap_wraps", C.wraps);
@@ -992,6 +1013,428 @@ run_storm(void)
 	vf_stat("ids_concurrent", atomic_load(&side_ids));
 }
 
+
+// ==================================================================
+// wrap mode: the real object-id maps at the end of their range
+// ==================================================================
+static int
+wrap_phdr_cb(struct dl_phdr_info *info, size_t sz, void *data)
+{
+	(void) sz;
+	*(uintptr_t *) data = (uintptr_t) info->dlpi_addr; // first entry: the executable itself
+	return 1;
+}
+
+// address of the file-local nni_id_map called 'name' in libnng (statically
+// linked into this executable), or NULL if the symbol table does not name
+// exactly one such object
+static nni_id_map *
+wrap_find_map(const char *name)
+{
+	static const uint8_t *img;
+	static size_t         imgsz;
+	static uintptr_t      bias;
+	if (img == NULL) {
+		struct stat st;
+		int         fd = open("/proc/self/exe", O_RDONLY);
+		if (fd < 0 || fstat(fd, &st) != 0) {
+			return NULL;
+		}
+		void *p = mmap(NULL, (size_t) st.st_size, PROT_READ, MAP_PRIVATE, fd, 0);
+		close(fd);
+		if (p == MAP_FAILED) {
+			return NULL;
+		}
+		img   = p;
+		imgsz = (size_t) st.st_size;
+		dl_iterate_phdr(wrap_phdr_cb, &bias);
+	}
+	const Elf64_Ehdr *eh = (const Elf64_Ehdr *) img;
+	if (imgsz < sizeof(*eh) || memcmp(eh->e_ident, ELFMAG, SELFMAG) != 0 || eh->e_ident[EI_CLASS] != ELFCLASS64 ||
+	    eh->e_shoff == 0 || eh->e_shoff + (uint64_t) eh->e_shnum * sizeof(Elf64_Shdr) > imgsz) {
+		return NULL;
+	}
+	const Elf64_Shdr *sh    = (const Elf64_Shdr *) (img + eh->e_shoff);
+	nni_id_map       *found = NULL;
+	int               n     = 0;
+	for (int i = 0; i < eh->e_shnum; i++) {
+		if (sh[i].sh_type != SHT_SYMTAB || sh[i].sh_link >= eh->e_shnum) {
+			continue;
+		}
+		const Elf64_Shdr *str = &sh[sh[i].sh_link];
+		if (sh[i].sh_offset + sh[i].sh_size > imgsz || str->sh_offset + str->sh_size > imgsz) {
+			continue;
+		}
+		const Elf64_Sym *sym  = (const Elf64_Sym *) (img + sh[i].sh_offset);
+		size_t           nsym = sh[i].sh_size / sizeof(Elf64_Sym);
+		const char      *strs = (const char *) (img + str->sh_offset);
+		for (size_t j = 0; j < nsym; j++) {
+			if (ELF64_ST_TYPE(sym[j].st_info) != STT_OBJECT || ELF64_ST_BIND(sym[j].st_info) != STB_LOCAL ||
+			    sym[j].st_size != sizeof(nni_id_map) || sym[j].st_name >= str->sh_size) {
+				continue;
+			}
+			if (strcmp(strs + sym[j].st_name, name) == 0) {
+				found = (nni_id_map *) (bias + sym[j].st_value);
+				n++;
+			}
+		}
+	}
+	return n == 1 ? found : NULL;
+}
+
+enum { WK_SOCK = 0, WK_CTX, WK_DIALER, WK_LISTENER, WK_PIPE, WK_N };
+static const struct {
+	const char *what, *sym;
+} wkinds[WK_N] = { { "socket", "sock_ids" }, { "context", "ctx_ids" }, { "dialer", "dialers" }, { "listener", "listeners" }, { "pipe", "pipes" } };
+
+#define WLONG 10
+#define WMAXLIVE 64
+#define WID_MAX 0x7fffffffLL
+typedef struct {
+	int       kind;
+	int64_t   live[WMAXLIVE];
+	int       nlive;
+	bool      have_prev;
+	int64_t   prev;
+	long      wraps, issued;
+	bool      dead;
+	nng_socket base, base2; // owner of contexts / dialers / listeners; pub side for pipes
+	char       url[64];
+	// pipe ids as they are attached (ADD_POST on either side)
+	pthread_mutex_t mtx;
+	int64_t         pend[8];
+	int             npend;
+	_Atomic int     adds, rems;
+} wctx;
+
+static void wviol(wctx *W, const char *clause, const char *fmt, ...) __attribute__((format(printf, 3, 4)));
+static void
+wviol(wctx *W, const char *clause, const char *fmt, ...)
+{
+	char    key[96], b[300];
+	va_list ap;
+	va_start(ap, fmt);
+	vsnprintf(b, sizeof(b), fmt, ap);
+	va_end(ap);
+	snprintf(key, sizeof(key), "C18/ids/%s/%s", clause, wkinds[W->kind].what);
+	vf_violation(key, "%s (real map, cursor placed below the end of the range)", b);
+	W->dead = true;
+}
+
+static bool
+wrap_step_ok(wctx *W, int64_t prev, bool have_prev, int64_t id)
+{
+	if (!have_prev || id > prev) {
+		return true;
+	}
+	// not increasing: only if every id above the previous one is in use
+	int64_t above = 0;
+	for (int i = 0; i < W->nlive; i++) {
+		above += W->live[i] > prev ? 1 : 0;
+	}
+	return above >= WID_MAX - prev;
+}
+
+// ids issued together (the two pipes of one connection get theirs on two
+// threads: either order may have been the allocation order)
+static void
+wrap_issue(wctx *W, const int64_t *ids, int n)
+{
+	for (int i = 0; i < n && !W->dead; i++) {
+		if (ids[i] < 1 || ids[i] > WID_MAX) {
+			wviol(W, "out-of-range", "%s id %lld outside [1,%lld]", wkinds[W->kind].what, (long long) ids[i], (long long) WID_MAX);
+			return;
+		}
+		for (int j = 0; j < W->nlive; j++) {
+			if (W->live[j] == ids[i]) {
+				wviol(W, "duplicate-live", "%s id %lld issued while an open %s has it", wkinds[W->kind].what, (long long) ids[i], wkinds[W->kind].what);
+				return;
+			}
+		}
+		if (n == 2 && i == 1 && ids[0] == ids[1]) {
+			wviol(W, "duplicate-live", "both pipes of one connection carry id %lld", (long long) ids[0]);
+			return;
+		}
+	}
+	bool ok = false;
+	int64_t last = ids[n - 1];
+	if (n == 1) {
+		ok = wrap_step_ok(W, W->prev, W->have_prev, ids[0]);
+	} else {
+		for (int o = 0; o < 2 && !ok; o++) {
+			int64_t a = ids[o], b = ids[1 - o];
+			// (b is judged with a counted as in use)
+			if (wrap_step_ok(W, W->prev, W->have_prev, a)) {
+				W->live[W->nlive++] = a;
+				ok = wrap_step_ok(W, a, true, b);
+				W->nlive--;
+				last = b;
+			}
+		}
+	}
+	if (!ok) {
+		wviol(W, "reissued-before-wrap", "%s id %lld issued after %lld although ids above %lld were free", wkinds[W->kind].what, (long long) ids[0], (long long) W->prev, (long long) W->prev);
+		return;
+	}
+	if (W->have_prev && last <= W->prev) {
+		W->wraps++;
+	}
+	W->have_prev = true;
+	W->prev      = last;
+	W->issued += n;
+	for (int i = 0; i < n && W->nlive < WMAXLIVE; i++) {
+		W->live[W->nlive++] = ids[i];
+	}
+}
+
+static void
+wrap_retire(wctx *W, int64_t id)
+{
+	for (int i = 0; i < W->nlive; i++) {
+		if (W->live[i] == id) {
+			W->live[i] = W->live[--W->nlive];
+			return;
+		}
+	}
+}
+
+static void
+wrap_pipe_cb(nng_pipe p, nng_pipe_ev ev, void *arg)
+{
+	wctx *W = arg;
+	if (ev == NNG_PIPE_EV_ADD_POST) {
+		pthread_mutex_lock(&W->mtx);
+		if (W->npend < 8) {
+			W->pend[W->npend++] = nng_pipe_id(p);
+		}
+		pthread_mutex_unlock(&W->mtx);
+		atomic_fetch_add(&W->adds, 1);
+	} else {
+		atomic_fetch_add(&W->rems, 1);
+	}
+}
+
+static void
+wrap_wait(_Atomic int *v, int want, const char *what)
+{
+	uint64_t end = vf_now_ns() + 20000000000ULL;
+	while (atomic_load(v) < want) {
+		if (vf_now_ns() > end) {
+			vf_harness_fail("timeout waiting for %s", what);
+		}
+		vf_usleep(50);
+	}
+}
+
+typedef struct {
+	bool open;
+	union {
+		nng_socket   s;
+		nng_ctx      c;
+		nng_dialer   d;
+		nng_listener l;
+	} u;
+	int64_t id[2];
+	int     nid;
+} wobj;
+
+static void
+wrap_open(wctx *W, wobj *o)
+{
+	int rv = 0;
+	o->nid = 1;
+	switch (W->kind) {
+	case WK_SOCK:
+		rv       = nng_pair0_open(&o->u.s);
+		o->id[0] = rv == 0 ? nng_socket_id(o->u.s) : 0;
+		break;
+	case WK_CTX:
+		rv       = nng_ctx_open(&o->u.c, W->base);
+		o->id[0] = rv == 0 ? nng_ctx_id(o->u.c) : 0;
+		break;
+	case WK_DIALER:
+		rv       = nng_dialer_create(&o->u.d, W->base, "inproc://vf-c18-wrap-nobody");
+		o->id[0] = rv == 0 ? nng_dialer_id(o->u.d) : 0;
+		break;
+	case WK_LISTENER: {
+		char url[64];
+		vf_url(VF_T_INPROC, url, sizeof(url));
+		rv       = nng_listener_create(&o->u.l, W->base, url);
+		o->id[0] = rv == 0 ? nng_listener_id(o->u.l) : 0;
+		break;
+	}
+	default: {
+		// one more subscriber: a pipe on either side
+		int adds = atomic_load(&W->adds);
+		if ((rv = nng_sub0_open(&o->u.s)) != 0) {
+			break;
+		}
+		nng_pipe_notify(o->u.s, NNG_PIPE_EV_ADD_POST, wrap_pipe_cb, W);
+		nng_pipe_notify(o->u.s, NNG_PIPE_EV_REM_POST, wrap_pipe_cb, W);
+		if ((rv = nng_dial(o->u.s, W->url, NULL, 0)) != 0) {
+			break;
+		}
+		wrap_wait(&W->adds, adds + 2, "both pipes of a connection");
+		pthread_mutex_lock(&W->mtx);
+		if (W->npend != 2) {
+			vf_harness_fail("%d pipes attached for one connection", W->npend);
+		}
+		o->id[0] = W->pend[0];
+		o->id[1] = W->pend[1];
+		o->nid   = 2;
+		W->npend = 0;
+		pthread_mutex_unlock(&W->mtx);
+		break;
+	}
+	}
+	if (rv != 0) {
+		vf_harness_fail("wrap: cannot open a %s: %s", wkinds[W->kind].what, nng_strerror(rv));
+	}
+	o->open = true;
+	wrap_issue(W, o->id, o->nid);
+}
+
+static void
+wrap_close(wctx *W, wobj *o)
+{
+	if (!o->open) {
+		return;
+	}
+	switch (W->kind) {
+	case WK_SOCK: nng_socket_close(o->u.s); break;
+	case WK_CTX: nng_ctx_close(o->u.c); break;
+	case WK_DIALER: nng_dialer_close(o->u.d); break;
+	case WK_LISTENER: nng_listener_close(o->u.l); break;
+	default: {
+		int rems = atomic_load(&W->rems);
+		nng_socket_close(o->u.s);
+		wrap_wait(&W->rems, rems + 2, "removal of both pipes");
+		break;
+	}
+	}
+	o->open = false;
+	for (int i = 0; i < o->nid; i++) {
+		wrap_retire(W, o->id[i]);
+	}
+}
+
+static void
+wrap_case(long idx, int kind, vf_rng *r)
+{
+	static wctx Ws;
+	wctx       *W = &Ws;
+	wobj        keep[WLONG], ring[3];
+	int         rv;
+	memset(W, 0, sizeof(*W));
+	memset(keep, 0, sizeof(keep));
+	memset(ring, 0, sizeof(ring));
+	pthread_mutex_init(&W->mtx, NULL);
+	W->kind = kind;
+	vf_case_begin(idx, "real %s id map across the end of its range", wkinds[kind].what);
+	nni_id_map *m = wrap_find_map(wkinds[kind].sym);
+	if (m == NULL) {
+		vf_stat("ids_real_map_not_found", 1);
+		vf_stat("cases", 1);
+		return;
+	}
+	if (kind == WK_CTX || kind == WK_DIALER || kind == WK_LISTENER) {
+		if ((rv = nng_req0_open(&W->base)) != 0) {
+			vf_harness_fail("open: %s", nng_strerror(rv));
+		}
+	} else if (kind == WK_PIPE) {
+		if ((rv = nng_pub0_open(&W->base)) != 0) {
+			vf_harness_fail("open: %s", nng_strerror(rv));
+		}
+		nng_pipe_notify(W->base, NNG_PIPE_EV_ADD_POST, wrap_pipe_cb, W);
+		nng_pipe_notify(W->base, NNG_PIPE_EV_REM_POST, wrap_pipe_cb, W);
+		vf_url(VF_T_INPROC, W->url, sizeof(W->url));
+		if ((rv = nng_listen(W->base, W->url, NULL, 0)) != 0) {
+			vf_harness_fail("listen: %s", nng_strerror(rv));
+		}
+	}
+	// is it really the map the ids come from?  (a probe object must be in it)
+	wobj probe;
+	memset(&probe, 0, sizeof(probe));
+	wrap_open(W, &probe);
+	if (!vf_quiesce(0, 20000)) {
+		vf_harness_fail("no quiescence");
+	}
+	bool mine = nni_id_get(m, (uint64_t) probe.id[0]) != NULL && nni_id_count(m) >= 1;
+	wrap_close(W, &probe);
+	if (!vf_quiesce(0, 20000)) {
+		vf_harness_fail("no quiescence");
+	}
+	if (!mine || W->dead) {
+		vf_stat("ids_real_map_not_found", 1);
+		vf_stat("cases", 1);
+		return;
+	}
+	// long-lived objects take the lowest ids
+	m->id_dyn_val = 1;
+	W->have_prev  = false;
+	for (int i = 0; i < WLONG && !W->dead; i++) {
+		wrap_open(W, &keep[i]);
+	}
+	if (!vf_quiesce(0, 20000)) {
+		vf_harness_fail("no quiescence");
+	}
+	// the cursor goes to just below the end of the range
+	int64_t start = WID_MAX - 6 - (int64_t) vf_below(r, 20);
+	m->id_dyn_val = (uint64_t) start;
+	W->have_prev  = false;
+	W->wraps      = 0;
+	int rounds    = kind == WK_PIPE ? 60 : 200;
+	for (int i = 0; i < rounds && !W->dead; i++) {
+		wobj *o = &ring[i % 3];
+		wrap_close(W, o);
+		wrap_open(W, o);
+		if (i == 0 && !W->dead && o->id[0] != start && (o->nid < 2 || o->id[1] != start)) {
+			// the cursor did not take: not the map, or it is not a cursor
+			vf_stat("ids_real_map_not_found", 1);
+			W->dead = true;
+			break;
+		}
+	}
+	if (!W->dead) {
+		char key[64];
+		if (W->wraps != 1) {
+			vf_harness_fail("wrap: %ld wraps of the %s ids", W->wraps, wkinds[kind].what);
+		}
+		snprintf(key, sizeof(key), "ids_real_wraps_%s", wkinds[kind].what);
+		vf_stat(key, W->wraps);
+		vf_stat("ids_real_issued", W->issued);
+		vf_class("ids/real-wrap/%s", wkinds[kind].what);
+		vf_sample("{\"real_map\":\"%s\",\"cursor_placed_at\":%lld,\"issued\":%ld,\"last\":%lld,\"long_lived\":%d}", wkinds[kind].sym, (long long) start, W->issued, (long long) W->prev, WLONG);
+	}
+	for (int i = 0; i < 3; i++) {
+		wrap_close(W, &ring[i]);
+	}
+	for (int i = 0; i < WLONG; i++) {
+		wrap_close(W, &keep[i]);
+	}
+	if (kind != WK_SOCK) {
+		nng_socket_close(W->base);
+	}
+	if (!vf_quiesce(1, 20000)) {
+		vf_harness_fail("no quiescence");
+	}
+	vf_stat("cases", 1);
+}
+
+static void
+run_wrap(void)
+{
+	vf_rng r;
+	for (long c = 0; c < vf_cases; c++) {
+		if (!vf_want_case(c)) {
+			continue;
+		}
+		vf_rng_seed(&r, vf_seed, (uint64_t) c);
+		wrap_case(c, (int) (c % WK_N), &r);
+		vf_watchdog(120);
+	}
+}
+
 int
 main(int argc, char **argv)
 {
@@ -1001,6 +1444,8 @@ main(int argc, char **argv)
 		run_map();
 	} else if (!strcmp(vf_mode, "storm")) {
 		run_storm();
+	} else if (!strcmp(vf_mode, "wrap")) {
+		run_wrap();
 	} else {
 		vf_harness_fail("unknown mode '%s'", vf_mode);
 	}
